@@ -1,7 +1,7 @@
 ------------------------------- MODULE CacheFS -------------------------------
 (* File-system level model of joblib.Memory for ONE function directory (C05, C11). *)
 (* Each label is one file-system call (the grain the LD_PRELOAD shim sees).    *)
-EXTENDS Integers, Sequences, FiniteSets, TLC
+EXTENDS Integers, Sequences, FiniteSets, TLC, Json
 
 CONSTANTS
   Procs,       \* e.g. {1, 2}
@@ -671,6 +671,10 @@ CrashTorn == /\ CrashProc \in Procs
 
 Next2 == Next \/ Crash \/ CrashTorn
 Spec2 == Init /\ [][Next2]_vars
+
+\* crash-state conformance (C05): every file-system state the model can be left in by a crash, printed for comparison with
+\* the snapshots of the real cache directory after a real kill at every file-system call
+EmitCrash == (crashed # {}) => PrintT(ToJson([ex |-> ex, ct |-> {<<x, ct[x]>> : x \in DOMAIN ct \cap ex}]))
 
 FinalNameComplete == \A k \in Keys : Out(k) \in ex => ct[Out(k)][1] # "partial"
 
